@@ -114,3 +114,6 @@ pub fn vnd_cover(_id: u32) { kani::cover!(true) }
 pub fn vnd_obs(_tag: u32, _v: u64) {}
 #[cfg(kani)]
 pub fn vnd_is_replay() -> bool { false }
+
+/// returns `v` (assumed <= max) as a path constant: engine M forks over the values, natively the identity
+pub fn vnd_conc(v: u32, max: u32) -> u32 { let mut i = 0; while i < max { if v == i { return i; } i += 1; } max }
